@@ -522,9 +522,8 @@ Definition c20_float_violations (cases : list float_case) : list Z :=
 (* stream "sixel": the same histories with Sixel images (sixel graphics advertised).  A sixel
    placement has no identifier on the wire and its deleteFn writes nothing, so an observed event
    is (1, 0, col, row) for "CUP row+1;col+1 followed by a sixel DCS string"; deletions are not
-   observable.  Sixel.Draw also marks the image's cells: [marked] is the number of screen cells
-   carrying the sixel flag after the frame's draws that lie outside the union of the drawn
-   rectangles plus the number of rectangle cells that lack it (must be 0). *)
+   observable.  (That Sixel.Draw marks exactly the cells of the drawn rectangles is checked by the
+   harness directly on the screen snapshot.) *)
 Definition sixel_key (e : gevent) : list rawev :=
   match e with
   | GDelete _ => []
